@@ -159,4 +159,19 @@ def main(ctx):
                                           function="Parallel2DExecutorImpl::%sTask::execute" % ("Triangle" if "tri" in h else "Square"), timeout=280,
                                           bounded="bins at most 4 wide (blocks up to 8x8), 4 bins; range type symbolic"))
     parallel(jobs)
+    ctx.trust("cbmc/goto-cc/goto-instrument 6.11.0 (C front end), MiniSat")
+    ctx.trust("tools/extract.py rule tables (extraction_report.json lists every rewrite and dropped token)")
+    ctx.assume("ParallelExecutor::Task::initialize/execute/finish by ghost contract (the user's work is opaque; the ghost bookkeeping is the specification)")
+    ctx.assume("threadBody: count <= INT_MAX - threadCount; beyond that `index += threadCount` is a signed overflow (undefined behaviour) - latent, outside the property's task counts (0..10000)")
+    ctx.assume("threadBody: exceptions thrown by the task are not modelled (try frame dropped; handlers only print)")
+    ctx.assume("Parallel2DExecutorImpl containers modelled: binStart = bounds-checked int array with ghost length, squares = append-only list of (pass,x,y); gridSize <= INT_MAX/64 so that i*gridSize does not overflow")
+    ctx.assume("the recursion is started by init exactly as in the squares units: addTriangle(0,0,0,levels) with bins == 2^levels (checked in the init units by recording the call)")
+    ctx.not_decided += ["every clause about thread interleavings: initialize-before/finish-after ordering across threads, mutual exclusion of finish, lost wake-ups, return-after-completion, data races",
+                        "ParallelWorkQueue (add/flush/destruct protocol) - entirely schedule dependent",
+                        "'never runs two invocations sharing an index concurrently' is decided only as: squares of ONE pass share no row/column bin, given that the executor runs one pass at a time (that it does is a schedule clause)",
+                        "binStart clauses for numProcessors 9..32 (64 bins: 64 double divisions do not finish in the quick tier) and square coverage for levels = 6",
+                        "striping for thread counts > 32 and a single proof symbolic in threadCount (symbolic modulus does not finish)"]
+    ctx.explanation = ("threadBody striping (each index of the stripe exactly once, in order, nothing outside; stripes partition the range; overflow obligation under count<=INT_MAX-T) "
+                       "as loop contract per thread count 1..32; non-parallel branch of execute (unbounded, loop contract); init levels/bins/binStart for numProcessors 0..8; "
+                       "addSquare/addTriangle coverage exactly-once and per-pass conflict freedom for levels 2..5; TriangleTask/SquareTask loops on small blocks.")
     return ctx.finish()
